@@ -725,8 +725,8 @@ def runCmd (c : Ctx) (s : State) (conn : Nat) (ref : Nat) (inMulti : Bool) : Cmd
 def isControl (n : Bytes) : Bool :=
   n == sb "multi" || n == sb "exec" || n == sb "discard" || n == sb "watch"
 
-def downIf (resp : Int) (c : Ctx) (v : Value) : Value :=
-  if resp == 2 then (if c.q.resp2Scalars then down v else downSpec v) else v
+def downIf (resp : Int) (_c : Ctx) (v : Value) : Value :=
+  if resp == 2 then down v else v
 
 /-- run the queued commands of EXEC in order -/
 def execQueue (c : Ctx) (conn : Nat) : List Queued → State → List Value → List Match → List (Nat × Bytes × Nat) →
